@@ -117,7 +117,16 @@ func f(i int8) int8 { return tab[i][2] }`, "f", false, "may be modified or alias
 func f(xs []byte) string { var b strings.Builder; b.Grow(len(xs)); for _, x := range xs { b.WriteByte(x + 1) }; return b.String() }`, "f", true,
 		"List.foldl (fun (b : List (BitVec 8)) (x : BitVec 8) =>\n      (b ++ [(x + 1#8)])) b xs"},
 	{"strings.Builder, other method", `import "strings"
-func f(xs string) string { var b strings.Builder; b.WriteString(xs); return b.String() }`, "f", false, "is not supported (only WriteByte, Grow and String)"},
+func f(xs string) string { var b strings.Builder; b.WriteString(xs); b.WriteRune('x'); return b.String() }`, "f", false, "is not supported (only WriteByte, WriteString, Grow and String)"},
+	{"strings.Builder.WriteString", `import "strings"
+func f(xs string) string { var b strings.Builder; b.WriteString(xs); b.WriteByte('1'); return b.String() }`, "f", true, "let b : List (BitVec 8) := (b ++ xs)"},
+	{"if with init", `func g(a int) (int, bool) { return a + 1, a > 3 }
+func f(a int) int { if v, ok := g(a); ok { return v }; return 0 }`, "g,f", true, "let st_1 : BitVec 64 × Bool := (g a)"},
+	{"substring", `func f(s string, n int) int { t := s[:n]; u := s[n:]; if t == u { return 1 }; return len(t) }`, "f", true, "if !(Go.sliceOK 0#64 n s.length) then Go.Flow.panic else\n  let t : List (BitVec 8) := (s.take n.toNat)"},
+	{"copy into a window", `func f(xs []byte, n int) []byte { r := make([]byte, 8); copy(r[n:], xs); return r }`, "f", true, "(r.take n.toNat ++ Go.copy (r.drop n.toNat) xs)"},
+	{"library function as a parameter", `import "strings"
+func g(s string) string { return strings.ToLower(s) }
+func f(s string) int { return len(g(s)) }`, "g,f", true, "def f (strings_ToLower : List (BitVec 8) → List (BitVec 8)) (s : List (BitVec 8)) : BitVec 64 :=\n  (BitVec.ofNat 64 (g strings_ToLower s).length)"},
 	{"three-clause for, <= len(x)-c", `func f(xs []byte) int { s := 0; for j := 0; j <= len(xs)-6; j += 6 { s += j }; return s }`, "f", true,
 		"(Go.forUp true true 0#64 ((BitVec.ofNat 64 xs.length) - 6#64) 6)"},
 	// patterns an independent audit found accepted and mistranslated; now rejected (or translated in Go's order)
@@ -205,15 +214,17 @@ func f() int { s := 0; for i := range tab { s += tab[i] }; return s }`, "f", fal
 	{"escaping package variable", `var tab = []int{1, 2}
 func g() []int { return tab }
 func f() int { s := 0; for i := range tab { s += tab[i] }; return s }`, "f", false, "may be modified or aliased"},
-	{"shadowing", `func f(a int) int { if a > 0 { a := 2; a++ }; return a }`, "f", false, "shadowing is not supported"},
+	{"shadowing", `func f(a int) int { if a > 0 { a := 2; a++; if a > 5 { return 1 } }; return a }`, "f", true, "let a_2 : BitVec 64 := (a_2 + 1#64)"},
 	{"division by a constant", `func f(a int) int { return (a*8 + 4) / 5 }`, "f", true, "(BitVec.sdiv ((a * 8#64) + 4#64) 5#64)"},
 	{"division by a constant, uint", `func f(a uint, b byte) uint { return a/3 + uint(b%7) }`, "f", true, "((a / 3#64) + (BitVec.setWidth 64 (b % 7#8)))"},
 	{"remainder, int", `func f(a int) int { return a % 10 }`, "f", true, "(BitVec.srem a 10#64)"},
 	{"division by a variable", `func f(a, b int) int { return a / b }`, "f", false, "non-constant or zero divisor"},
 	{"remainder by zero", `func f(a uint) uint { const z = 0; return a % (z + 0) }`, "f", false, "invalid operation"},
-	{"int32", `func f(a int32) int32 { return a }`, "f", false, "outside the translated subset"},
+	{"int32 (rune)", `func f(a int32, b byte) bool { return a >= 33 && a <= rune(b) }`, "f", true, "((BitVec.sle 33#32 a) && (BitVec.sle a (BitVec.setWidth 32 b)))"},
+	{"int16", `func f(a int16) int16 { return a }`, "f", false, "outside the translated subset"},
 	{"range over string", `func f(s string) int { n := 0; for range s { n++ }; return n }`, "f", true, "(n + 1#64)) n (Go.runeStarts s)"},
-	{"range over string by value", `func f(s string) int { n := 0; for _, c := range s { n += int(c) }; return n }`, "f", false, "range over string is not supported"},
+	{"range over string by value", `func f(s string) int { n := 0; for _, c := range s { n += int(c) }; return n }`, "f", true, "(Go.runes s)"},
+	{"range over string, key and value", `func f(s string) int { n := 0; for i, c := range s { n += i + int(c) }; return n }`, "f", true, "let i : BitVec 64 := rk_1.1\n      let c : BitVec 32 := rk_1.2"},
 	{"range by value over assigned slice", `func f(x byte) int { r := []byte{x}; s := 0; for _, v := range r { r = append(r, v); s += int(v) }; return s }`, "f", false,
 		"over which it ranges by value"},
 	{"callee not translated", `func g(x byte) byte { return x }
@@ -302,7 +313,53 @@ func f(a int) (int, error) { if a < 0 { return 0, &E{err: ErrX, Off: a} }; retur
 var ErrX = errors.New("x")
 type E struct { err error; Off int }
 func (e *E) Error() string { return "e" }
-func f(a int) (int, error) { if a < 0 { return 0, &E{ErrX, a} }; return a, ErrX }`, "f", false, "also builds &T{ErrX, off}"},
+func f(a int) (int, error) { if a < 0 { return 0, &E{ErrX, a} }; return a, ErrX }`, "f", true, "(a, (some (\"ErrX\", none)))"},
+	{"error with offset, mixed: the positioned one", `import "errors"
+var ErrX = errors.New("x")
+type E struct { err error; Off int }
+func (e *E) Error() string { return "e" }
+func f(a int) (int, error) { if a < 0 { return 0, &E{ErrX, a} }; return a, ErrX }`, "f", true, "(0#64, (some (\"ErrX\", some a)))"},
+	{"error of a callee converted, err != nil", `import ("errors"; "fmt")
+var ErrX = errors.New("x")
+type E struct { err error; Off int }
+func (e *E) Error() string { return "e" }
+func g(a int) error { if a < 0 { return &E{ErrX, a} }; return nil }
+func f(a int) (int, error) { if err := g(a); err != nil { return 0, err }; if a == 7 { return 0, fmt.Errorf("%w: seven", ErrX) }; return a, nil }`, "g,f", true,
+		"let err : Option (String × Option (BitVec 64)) := (Go.errOfAt (g a))\n  if (err).isSome then"},
+	{"errors.As on the error of a callee", `import "errors"
+var ErrX = errors.New("x")
+type E struct { err error; Off int }
+func (e *E) Error() string { return "e" }
+func (e *E) Unwrap() error { return e.err }
+type F struct { err error; Off int }
+func (e *F) Error() string { return "f" }
+func g(a int) error { if a < 0 { return &E{ErrX, a} }; return nil }
+func f(a int) (int, error) { if err := g(a); err != nil { var e *E; if errors.As(err, &e) { return 0, &F{e.Unwrap(), e.Off + 1} }; return 0, err }; return a, nil }`, "g,f", true,
+		"(some ((Go.errNameAt err), ((Go.errOffAt err) + 1#64)))"},
+	{"errors.As with another target type", `import "errors"
+var ErrX = errors.New("x")
+type E struct { err error; Off int }
+func (e *E) Error() string { return "e" }
+type F struct { err error; Off int }
+func (e *F) Error() string { return "f" }
+func g(a int) error { if a < 0 { return &E{ErrX, a} }; return nil }
+func f(a int) (int, error) { if err := g(a); err != nil { var e *F; if errors.As(err, &e) { return 1, err }; return 0, err }; return a, nil }`, "g,f", false, "is not the error type"},
+	{"shadowed variable", `func f(a int) int { if a > 0 { a := 2; a++; return a }; return a }`, "f", true, "let a_2 : BitVec 64 := 2#64"},
+	{"prefix reslice of a local", `func g(n int) []byte { return make([]byte, n) }
+func f(n int) int { r := g(n); r = r[:2]; return len(r) }`, "g,f", true, "let r : List (BitVec 8) := (r.take 2)"},
+	{"second upper bound on a cut local", `func g(n int) []byte { return make([]byte, n) }
+func f(n int) int { r := g(n); r = r[:2]; r = r[:3]; return len(r) }`, "g,f", false, "checked against the capacity"},
+	{"method of a package-level struct", `type T struct { tab [4]byte }
+func newT() *T { e := new(T); e.tab[1] = 7; return e }
+var v = newT()
+func (e *T) get(i int) byte { return e.tab[i] }
+func f(i int) byte { return v.get(i) + 1 }`, "newT,T.get,f", true, "def f (v_tab : List (BitVec 8)) (i : BitVec 64) : Option (BitVec 8) :="},
+	{"package-level struct also used directly", `type T struct { tab [4]byte }
+func newT() *T { e := new(T); e.tab[1] = 7; return e }
+var v = newT()
+func (e *T) get(i int) byte { return e.tab[i] }
+func g() { v.tab[0] = 1 }
+func f(i int) byte { return v.get(i) + 1 }`, "newT,T.get,f", false, "used other than as the receiver of a method call"},
 	{"error with offset, not an error type", `import "errors"
 var ErrX = errors.New("x")
 type E struct { err error; Off int }
